@@ -413,6 +413,13 @@ def leaves(body, op, expand_calls=True, max_nodes=200):
                 stack.extend(trace(body, x))
         elif o.kind == "expr" and o.data[0] == "repeat" and o.data[1][0] == "const":
             continue  # [CONST; N]
+        elif o.kind == "expr" and o.data[0] == "bin":
+            for x in (o.data[2], o.data[3]):
+                if x[0] != "const":
+                    stack.extend(trace(body, x))
+        elif o.kind == "expr" and o.data[0] == "un":
+            if o.data[2][0] != "const":
+                stack.extend(trace(body, o.data[2]))
         elif o.kind == "call" and expand_calls and o.data["a"] and id(o.data) not in seen:
             seen.add(id(o.data))
             nonconst = [a for a in o.data["a"] if a[0] != "const"]
